@@ -1,6 +1,6 @@
 (* The Q instance of the model, as the functions the runner calls. *)
 From Coq Require Import List ZArith QArith Bool.
-From SplipyModel Require Import Model.Num Model.BasisDef Model.BasisEval Model.Knots Model.Tensor Model.Obj Model.Deriv Model.KnotInsert Model.Reparam Model.Affine Model.Tol Model.StateCtx.
+From SplipyModel Require Import Model.Num Model.BasisDef Model.BasisEval Model.Knots Model.Tensor Model.Obj Model.Deriv Model.KnotInsert Model.Reparam Model.Affine Model.Tol Model.StateCtx Model.Solve Model.Order.
 Import ListNotations.
 
 Definition q_basis_evaluate := @basis_evaluate Q NumQ.
@@ -37,4 +37,9 @@ Definition q_vd_insert_all := @vd_insert_all Q NumQ.
 Definition q_state_exec (p : prog Q) (init : list Q) : list Q * bool :=
   let r := exec Q p (fun k => nth k init 0%Q) in
   (map (fst r) (seq 0 (length init)), match snd r with Normal => true | Exc => false end).
+Definition q_basis_raise_order := @basis_raise_order Q NumQ.
+Definition q_basis_lower_order := @basis_lower_order Q NumQ.
+Definition q_obj_raise_order := @obj_raise_order Q NumQ.
+Definition q_obj_lower_order := @obj_lower_order Q NumQ.
+Definition q_solve := @solve Q NumQ.
 Definition q_res_witness (e : err) : res unit := Err e.
